@@ -30,8 +30,15 @@ def points(tier):
                 for files in (False, True):
                     extra.append({'mode': mode, 'workers': 1, 'hostname': '127.0.0.1', 'hostnames': [], 'port': port, 'ports': ports,
                                   'unix': unix, 'files': files, 'hashseed': 0})
+    # a wildcard address of one family together with a specific address of the other
+    for mode in ('threaded', 'local', 'remote'):
+        for hostname, hostnames in (('0.0.0.0', ['::1']), ('::1', ['0.0.0.0'])):      # (a v6 wildcard would also claim the v4 port)
+            for ports in ([], ['A']):
+                for hs in (0, 1):
+                    extra.append({'mode': mode, 'workers': 1, 'hostname': hostname, 'hostnames': hostnames, 'port': 'P', 'ports': ports,
+                                  'unix': False, 'files': True, 'hashseed': hs, 'wildcard': True})
     if tier == 'quick':
-        extra = [p for i, p in enumerate(extra) if p['files'] and (i // 2) % 3 == ['threaded', 'local', 'remote'].index(p['mode'])]
+        extra = [p for i, p in enumerate(extra) if p.get('wildcard') and (p['hashseed'] == 0 and (bool(p['ports']) == (p['mode'] != 'local'))) or not p.get('wildcard') and p['files'] and (i // 2) % 3 == ['threaded', 'local', 'remote'].index(p['mode'])]
     if tier == 'quick':
         # every option value, every --ports shape and every mode, pairwise rather than the full product
         sel = []
